@@ -1,2 +1,327 @@
-//! C12 — layered caching is coherent and validated (stub, being written).
-fn main() {}
+//! C12 — layered caching is coherent and never serves content that fails validation.
+//!
+//! Sections
+//!   layered-history   random histories of 1..=30 operations over
+//!                     [Memory(2..=3), Disk] and [Memory(1..=2), Memory(8), Disk],
+//!                     every eviction policy, promotion strategy and hook set,
+//!                     interleaved with faults on the disk layer's value files
+//!   short-histories   every sequence of up to N operations from a 10-letter
+//!                     alphabet on one hot key (+2 filler keys), both layouts
+//! Oracle: model.rs (hard clauses H1..H6, latest-value clause L1).
+//! "Every call returns" (H7): every case runs on a watchdog-supervised thread
+//! (`supervised` below).
+
+mod model;
+mod sut;
+
+use model::{Case, Expect, FaultKind, HANG_CONFIRMED, Interp, K_HANG, Op, Progress};
+use proptest::prelude::*;
+use std::cell::Cell;
+use std::collections::HashMap;
+use std::sync::atomic::{AtomicU64, Ordering};
+use std::sync::{Arc, Mutex};
+use std::time::Duration;
+use sut::{Hooks, Layout, Pol, Strat};
+use vh_engine::util::{catch_panic, fnv64, with_timeout};
+use vh_engine::{Check, Known, Section, Verdict};
+
+// ---------------------------------------------------------------------------
+// watchdog
+// ---------------------------------------------------------------------------
+
+/// A case normally takes milliseconds. The machine may be heavily loaded, so a
+/// case counts as hung only if it does not complete within FIRST seconds *and*
+/// a second, fresh execution of the same case does not complete within SECOND
+/// seconds, both stuck inside the same cache call.
+fn limits() -> (Duration, Duration) {
+    let get = |name: &str, def: u64| std::env::var(name).ok().and_then(|s| s.parse::<u64>().ok()).unwrap_or(def);
+    // the overrides exist for developing the watchdog path itself; the registered commands never set them
+    (Duration::from_secs(get("VH_C12_T1", 60)), Duration::from_secs(get("VH_C12_T2", 180)))
+}
+
+static INFRA_EVENTS: Mutex<Vec<String>> = Mutex::new(Vec::new());
+static SLOW_RERUNS: AtomicU64 = AtomicU64::new(0);
+/// failures of cases that hung without the tracker model predicting it (case hash -> key, msg)
+static UNPREDICTED: Mutex<Option<HashMap<u64, (String, String)>>> = Mutex::new(None);
+
+thread_local! {
+    /// after an unpredicted hang this shard only shrinks; every further real
+    /// execution would cost minutes, so the shard stops executing cases
+    static SHARD_STOPPED: Cell<bool> = const { Cell::new(false) };
+}
+
+enum Attempt {
+    Done(Verdict),
+    Panic(vh_engine::util::PanicInfo),
+    Setup(String),
+    /// no completion within the limit; what the case thread was doing
+    Hang(Progress),
+}
+
+fn attempt(case: &Case, known: &Known, limit: Duration) -> Attempt {
+    // the directory belongs to the supervisor: it is removed even if the case thread never returns
+    let dir = match tempfile::Builder::new().prefix("vh-c12-").tempdir() {
+        Ok(d) => d,
+        Err(e) => return Attempt::Setup(format!("cannot create a temporary directory: {e}")),
+    };
+    let progress: model::Shared = Arc::new(Mutex::new(Progress::default()));
+    let (c, k, p, path) = (case.clone(), known.clone(), Arc::clone(&progress), dir.path().to_path_buf());
+    let r = with_timeout(limit, move || {
+        catch_panic(move || match Interp::new(&c, &k, &path, p) {
+            Ok(i) => Ok(i.run()),
+            Err(e) => Err(e),
+        })
+    });
+    match r {
+        Some(Ok(Ok(v))) => Attempt::Done(v),
+        Some(Ok(Err(e))) => Attempt::Setup(format!("cannot construct the cache: {e}")),
+        Some(Err(p)) => Attempt::Panic(p),
+        None => {
+            let p = progress.lock().map(|g| g.clone()).unwrap_or_default();
+            Attempt::Hang(p)
+        }
+    }
+}
+
+fn is_cache_call(what: &str) -> bool {
+    !matches!(what, "" | "judging" | "done")
+}
+
+fn supervised(case: &Case, known: &Known) -> Verdict {
+    let hash = fnv64(serde_json::to_string(case).unwrap_or_default().as_bytes());
+    if let Ok(g) = UNPREDICTED.lock() {
+        if let Some((k, m)) = g.as_ref().and_then(|m| m.get(&hash)) {
+            return Verdict::fail(k.clone(), m.clone());
+        }
+    }
+    if SHARD_STOPPED.with(Cell::get) {
+        return Verdict::pass().class("not-executed-after-unpredicted-hang");
+    }
+    let (t1, t2) = limits();
+    let infra = |msg: String| {
+        if let Ok(mut g) = INFRA_EVENTS.lock() {
+            if g.len() < 20 {
+                g.push(msg);
+            }
+        }
+        Verdict::pass().class("infrastructure-trouble")
+    };
+    let panic_verdict = |p: vh_engine::util::PanicInfo| {
+        Verdict::fail(format!("C12:multi:panic:{}:{}", p.file, p.norm_msg()), format!("panic at {}:{}: {}", p.file, p.line, p.msg))
+    };
+    let first = match attempt(case, known, t1) {
+        Attempt::Done(v) => return v,
+        Attempt::Panic(p) => return panic_verdict(p),
+        Attempt::Setup(e) => return Verdict::fail("C12:harness:cannot-construct-cache", e),
+        Attempt::Hang(p) => p,
+    };
+    if !first.started {
+        return infra(format!("case thread did not start within {t1:?}"));
+    }
+    // second, fresh execution with the long limit
+    let second = match attempt(case, known, t2) {
+        Attempt::Done(v) => {
+            SLOW_RERUNS.fetch_add(1, Ordering::Relaxed);
+            return v.class("completed-on-watchdog-rerun");
+        }
+        Attempt::Panic(p) => return panic_verdict(p),
+        Attempt::Setup(e) => return infra(format!("re-run after a timeout could not be set up: {e}")),
+        Attempt::Hang(p) => p,
+    };
+    if !second.started || !is_cache_call(second.what) || !is_cache_call(first.what) || first.step != second.step || first.what != second.what {
+        return infra(format!(
+            "case timed out twice but not inside the same cache call (first: op#{} {}, second: op#{} {}): machine too slow?",
+            first.step, first.what, second.step, second.what
+        ));
+    }
+    let msg = format!(
+        "op#{} {}({}) did not return within {t1:?}, and again not within {t2:?} on a fresh execution of the same history",
+        second.step, second.what, second.detail
+    );
+    if second.predicted_hang && second.what == "get" {
+        HANG_CONFIRMED.store(true, Ordering::SeqCst);
+        return Verdict::fail(K_HANG, msg);
+    }
+    let key = format!("C12:multi:{}-never-returns:not-predicted-by-tracker-model", second.what);
+    if let Ok(mut g) = UNPREDICTED.lock() {
+        g.get_or_insert_with(HashMap::new).insert(hash, (key.clone(), msg.clone()));
+    }
+    SHARD_STOPPED.with(|c| c.set(true));
+    Verdict::fail(key, msg)
+}
+
+// ---------------------------------------------------------------------------
+// generators
+// ---------------------------------------------------------------------------
+
+fn key_s() -> BoxedStrategy<usize> {
+    prop_oneof![5 => 0usize..2, 4 => 0usize..4, 1 => 0usize..6].boxed()
+}
+
+fn len_s() -> BoxedStrategy<usize> {
+    prop_oneof![6 => 4usize..=24, 2 => 4usize..=300, 1 => 1000usize..=6000].boxed()
+}
+
+fn layer_s() -> BoxedStrategy<u8> {
+    prop_oneof![2 => Just(0u8), 3 => Just(1u8), 3 => Just(2u8)].boxed()
+}
+
+fn op_s() -> BoxedStrategy<Op> {
+    let put = (key_s(), len_s()).prop_map(|(k, len)| Op::Put { k, len });
+    let put_ttl = (key_s(), len_s(), any::<bool>()).prop_map(|(k, len, zero)| Op::PutTtl { k, len, zero });
+    let put_layer = (key_s(), len_s(), layer_s()).prop_map(|(k, len, layer)| Op::PutToLayer { k, len, layer });
+    let get = (key_s(), prop::bool::weighted(0.3)).prop_map(|(k, probe)| Op::Get { k, probe });
+    let get_layer = (key_s(), layer_s()).prop_map(|(k, layer)| Op::GetFromLayer { k, layer });
+    let promote = (key_s(), 0u8..3, 0u8..3).prop_map(|(k, from, to)| Op::Promote { k, from, to });
+    let promote_up = (key_s(), 1u8..3).prop_map(|(k, from)| Op::Promote { k, from, to: 0 });
+    let remove = key_s().prop_map(|k| Op::Remove { k });
+    let contains = key_s().prop_map(|k| Op::Contains { k });
+    let batch_get = proptest::collection::vec(key_s(), 1..=6).prop_map(|ks| Op::BatchGet { ks });
+    let batch_put = proptest::collection::vec((key_s(), len_s()), 1..=5).prop_map(|items| Op::BatchPut { items });
+    let put_val = (key_s(), len_s(), prop::bool::weighted(0.25)).prop_map(|(k, len, wrong)| Op::PutValidated { k, len, wrong });
+    let expect = prop_oneof![
+        6 => Just(Expect::Latest),
+        2 => any::<u16>().prop_map(|which| Expect::Older { which }),
+        1 => Just(Expect::Garbage),
+        1 => Just(Expect::NoKey),
+    ];
+    let get_val = (key_s(), expect, prop_oneof![1 => Just(None), 1 => any::<u16>().prop_map(Some)]).prop_map(|(k, expect, damaged)| Op::GetValidated { k, expect, damaged });
+    let kind = prop_oneof![
+        3 => len_s().prop_map(|len| FaultKind::Overwrite { len }),
+        2 => any::<u16>().prop_map(|keep| FaultKind::Truncate { keep }),
+        2 => Just(FaultKind::Delete),
+    ];
+    let fault = (any::<u16>(), kind).prop_map(|(sel, kind)| Op::Fault { sel, kind });
+    prop_oneof![
+        13 => put,
+        7 => put_ttl,
+        15 => put_layer,
+        20 => get,
+        7 => get_layer,
+        3 => promote,
+        5 => promote_up,
+        4 => remove,
+        1 => Just(Op::Clear),
+        3 => contains,
+        4 => batch_get,
+        3 => batch_put,
+        5 => put_val,
+        10 => get_val,
+        9 => fault,
+    ]
+    .boxed()
+}
+
+fn strat_s() -> BoxedStrategy<Strat> {
+    prop_oneof![
+        3 => Just(Strat::OnHit),
+        2 => proptest::sample::select(vec![1u32, 2, 3, 1000]).prop_map(Strat::AfterNHits),
+        2 => proptest::sample::select(vec![0u32, 1000, u32::MAX]).prop_map(|milli| Strat::Frequency { milli }),
+        2 => any::<bool>().prop_map(|zero| Strat::Age { zero }),
+        2 => Just(Strat::Manual),
+    ]
+    .boxed()
+}
+
+fn case_s() -> BoxedStrategy<Case> {
+    (
+        prop_oneof![(2usize..=3).prop_map(|l0_max| Layout::MemDisk { l0_max }), (1usize..=2).prop_map(|l0_max| Layout::MemMemDisk { l0_max }),],
+        prop_oneof![3 => Just(Pol::Lru), 2 => Just(Pol::Lfu), 2 => Just(Pol::Fifo), 2 => Just(Pol::Random), 1 => Just(Pol::Ttl)],
+        strat_s(),
+        prop_oneof![4 => Just(Hooks::Md5), 1 => Just(Hooks::Ngdp), 1 => Just(Hooks::None)],
+        0u8..6,
+        prop_oneof![1 => Just(1usize), 3 => Just(2usize), 4 => Just(3usize), 3 => Just(4usize), 1 => Just(5usize), 1 => Just(6usize)],
+        any::<u64>(),
+        proptest::collection::vec(op_s(), 1..=30),
+    )
+        .prop_map(|(layout, policy, strat, hooks, key_style, pool, content_seed, ops)| Case { layout, policy, strat, hooks, key_style, pool, content_seed, ops })
+        .boxed()
+}
+
+/// The alphabet of the exhaustive section: one hot key (0), two filler keys.
+fn alphabet(layout: Layout) -> Vec<Op> {
+    let disk = layout.disk_layer() as u8;
+    vec![
+        Op::Put { k: 0, len: 8 },
+        Op::PutToLayer { k: 0, len: 8, layer: disk },
+        Op::Get { k: 0, probe: false },
+        Op::GetValidated { k: 0, expect: Expect::Latest, damaged: None },
+        Op::Remove { k: 0 },
+        Op::Promote { k: 0, from: disk, to: 0 },
+        Op::Put { k: 1, len: 8 },
+        Op::Put { k: 2, len: 8 },
+        Op::Fault { sel: 0, kind: FaultKind::Overwrite { len: 8 } },
+        Op::PutTtl { k: 0, len: 8, zero: true },
+    ]
+}
+
+fn short_histories(max_len: usize, seed: u64) -> impl Iterator<Item = Case> + Send {
+    let layouts = [Layout::MemDisk { l0_max: 2 }, Layout::MemMemDisk { l0_max: 1 }];
+    (1..=max_len).flat_map(move |n| {
+        layouts.into_iter().flat_map(move |layout| {
+            let a = alphabet(layout);
+            let m = a.len();
+            let total = m.pow(n as u32);
+            (0..total).map(move |mut x| {
+                let mut ops = Vec::with_capacity(n);
+                for _ in 0..n {
+                    ops.push(a[x % m].clone());
+                    x /= m;
+                }
+                Case { layout, policy: Pol::Lru, strat: Strat::OnHit, hooks: Hooks::Md5, key_style: 0, pool: 3, content_seed: seed ^ (n as u64) << 40, ops }
+            })
+        })
+    })
+}
+
+fn main() {
+    let mut ck = Check::from_args("C12", "exploration");
+    let tier = ck.tier;
+    let seed = ck.seed;
+    ck.extra(
+        "rule",
+        "histories of put / put_with_ttl(ZERO|1h) / put_to_layer / get / get_from_layer / promote / remove / clear / contains / batch_get / batch_put / \
+         put_with_validation / get_with_validation over a 2- or 3-layer cache with a 1..3-entry first layer, interleaved with overwrite / truncate / delete of \
+         the disk layer's value files, judged against a per-key per-layer model after every operation and in a final sweep of every layer; every case runs on \
+         a watchdog-supervised thread; non-trivial = a multi-layer lookup was answered by a layer > 0, or a validated get (hooks + content key) ran on a key \
+         whose disk file had been damaged; distinct by case hash"
+            .into(),
+    );
+    ck.assume("Duration::ZERO TTL = already expired, 1 h = never expires within a case; no other TTL is used; every layer's default TTL is 1 h");
+    ck.assume("the key pool has at most 6 keys, so the disk layer and the 8-entry middle memory layer never evict within a case; the first layer may evict anything once the model counts max_entries possible entries in it");
+    ck.assume("a plain (unvalidated) read may return the bytes a fault planted in the disk file: nothing in the cache can tell them from the stored value; only hooks + content key are required to reject them");
+    ck.assume("get_from_layer answers for one layer only: an older value held by that layer is not a stale answer of the cache (the latest-value clause is applied to get, batch_get and get_with_validation)");
+    ck.assume("a put / remove / clear / promote that returns Err ends the history without a verdict (class abandoned-on-put-error); a get that returns Err is a violation, except get_from_layer / promote on the disk layer once after its file was deleted");
+    ck.assume("a case counts as hung only if two fresh executions both fail to complete (60 s, then 180 s) inside the same cache call; one slow execution is re-run and judged normally");
+    ck.assume("the background cleanup / sync tasks of the layers (interval one year) are never polled: current-thread runtime, no operation yields");
+
+    // In --replay mode nothing is tolerated inside a history: the first finding ends the case
+    // with its key and the engine reports it as KNOWN-FINDING / VIOLATION.
+    let known = if ck.is_replay() { Known::default() } else { ck.known().clone() };
+
+    let k1 = known.clone();
+    ck.run(Section::pbt("layered-history", tier.pick(1500, 150_000), case_s, move |c: &Case| supervised(c, &k1)).shards(16).shrink_iters(1500));
+
+    let k2 = known.clone();
+    let max_len = tier.pick(4usize, 5usize);
+    ck.run(
+        Section::enumerate(
+            "short-histories",
+            format!(
+                "every sequence of 1..={max_len} operations from {{put k0, put_to_layer(k0, disk), get k0, get_with_validation(k0, key of latest), remove k0, \
+                 promote(k0, disk->0), put k1, put k2, overwrite k0's disk file, put_with_ttl(k0, ZERO)}} on [Memory(2), Disk] and [Memory(1), Memory(8), Disk], LRU, OnHit, MD5 hooks"
+            ),
+            move || Box::new(short_histories(max_len, seed)),
+            move |c: &Case| supervised(c, &k2),
+        )
+        .shards(16),
+    );
+
+    if let Ok(g) = INFRA_EVENTS.lock() {
+        for e in g.iter() {
+            ck.infra(e.clone());
+        }
+    }
+    ck.extra("cases_completed_only_on_watchdog_rerun", SLOW_RERUNS.load(Ordering::Relaxed).into());
+    ck.finish();
+}
